@@ -8,38 +8,6 @@ Lemma op_run_tick : forall (St I O : Type) (init : St) (step : St -> I -> O * St
   op_run LTick init step xss = map (fun xs => fst (step init xs)) xss.
 Proof. intros. apply stateful_tick. Qed.
 
-Lemma gen_dead : forall init f l, fst (run_items (gen_istep init f) GDead l) = [].
-Proof.
-  induction l as [|x r IH]; simpl; [reflexivity|].
-  destruct (run_items (gen_istep init f) GDead r). simpl in *. exact IH.
-Qed.
-
-Lemma gen_returned : forall init f l, fst (run_items (gen_istep init f) GReturned l) = [].
-Proof.
-  intros init f [|x r]; simpl; [reflexivity|].
-  pose proof (gen_dead init f r) as D. destruct (run_items (gen_istep init f) GDead r). exact D.
-Qed.
-
-Lemma gen_active : forall init f l a,
-  fst (run_items (gen_istep init f) (GActive a) l) = gen_list f a l.
-Proof.
-  induction l as [|x r IH]; intros a; simpl; [reflexivity|].
-  destruct (f a x) as [a' g]. destruct g.
-  - specialize (IH a'). destruct (run_items (gen_istep init f) (GActive a') r). simpl in *. congruence.
-  - pose proof (gen_returned init f r) as D.
-    destruct (run_items (gen_istep init f) GReturned r). simpl in *. rewrite D. reflexivity.
-  - specialize (IH a'). destruct (run_items (gen_istep init f) (GActive a') r). simpl in *. congruence.
-  - pose proof (gen_dead init f r) as D.
-    destruct (run_items (gen_istep init f) GDead r). simpl in *. exact D.
-Qed.
-
-Lemma gen_init : forall init f l,
-  fst (run_items (gen_istep init f) GInit l) = gen_list f init l.
-Proof.
-  intros init f [|x r]; [reflexivity|].
-  pose proof (gen_active init f (x :: r) init) as A. simpl in A |- *. exact A.
-Qed.
-
 (* defer_tick_lazy: the output is the input shifted by exactly one tick *)
 Lemma defer_shift_gen : forall xss i0 buf,
   stateful LStatic i0 defer_step buf xss =
